@@ -18,11 +18,15 @@ GENS = ["tucker", "tt", "ttm", "tr"]
 
 def plan(tier, seed):
     n = 12000 if tier == "quick" else 160000
-    return [{"gen": GENS[i % len(GENS)], "idx": i, "seed": seed} for i in range(n)]
+    cases = [{"gen": GENS[i % len(GENS)], "idx": i, "seed": seed} for i in range(n)]
+    # a handful of large unfoldings (hundreds of rows and columns): size-dependent solver choices only show there
+    cases += [{"gen": "large", "idx": n + i, "seed": seed} for i in range(16 if tier == "quick" else 96)]
+    return cases
 
 
 def floors(tier):
     f = {"checked/%s" % g: 200 for g in GENS}
+    f["large/tt-matrix-120x800"] = 1
     f.update({"clause/upper-bound": 500, "clause/lower-bound": 500, "clause/exact": 300, "clause/ranks-respected": 800})
     return f
 
@@ -107,6 +111,42 @@ def run_case(case, ctx):
     def viol(clause, sub, what, wit=None):
         ctx.violation("C09:%s:%s:%s" % (g, clause, sub), what, wit)
 
+    if g == "large":
+        which = gen.choice(rs, ["tt-matrix-120x800", "tucker-600x12x12", "tt-3-modes"])
+        ctx.count("large/" + which)
+        if which == "tt-matrix-120x800":
+            X = rs.standard_normal((120, 800)) * np.geomspace(1, 1e-2, 800)
+            r = int(rs.randint(3, 12))
+            out = D.tensor_train(X, [1, r, 1])
+            rec = ref.tt_dense([np.asarray(c) for c in out.factors])[0].reshape(X.shape)
+            sig = np.linalg.svd(X, compute_uv=False)
+            bound = tail_sq(sig, r)
+        elif which == "tucker-600x12x12":
+            X = rs.standard_normal((600, 12, 12))
+            X = X * np.geomspace(1, 1e-2, 12)[None, :, None]
+            r = int(rs.randint(3, 9))
+            core, fs = D.tucker(X, [r, 12, 12], n_iter_max=int(gen.choice(rs, [0, 2])), init="svd", tol=0)
+            rec = ref.tucker_dense(np.asarray(core), [np.asarray(f) for f in fs])[0]
+            sig = np.linalg.svd(X.reshape(600, -1), compute_uv=False)
+            bound = tail_sq(sig, r)       # only mode 0 truncates: the quasi-optimality bound is tight
+        else:
+            X = rs.standard_normal((110, 8, 70))
+            r = int(rs.randint(3, 8))
+            out = D.tensor_train(X, [1, r, 70, 1])
+            rec = ref.tt_dense([np.asarray(c) for c in out.factors])[0].reshape(X.shape)
+            sig = np.linalg.svd(X.reshape(110, -1), compute_uv=False)
+            bound = tail_sq(sig, r)
+        err = float(np.sum((np.asarray(X, dtype=np.longdouble) - np.asarray(rec, dtype=np.longdouble)) ** 2))
+        desc = {"gen": g, "which": which, "rank": r}
+        ctx.nontriv(desc)
+        ctx.count("clause/upper-bound")
+        ctx.count("clause/lower-bound")
+        nxl = float(np.sum(X * X))
+        if err > bound + 1e-9 * nxl:
+            viol("upper-bound", "large", "%s at rank %d: error^2 %.9g exceeds the discarded tail %.9g (the only truncated unfolding)" % (which, r, err, bound), desc)
+        elif err < bound - 1e-9 * nxl:
+            viol("lower-bound", "large", "%s at rank %d: error^2 %.9g below the discarded tail %.9g" % (which, r, err, bound), desc)
+        return
     if g == "tucker":
         order = int(rs.randint(2, 6))
         shp = gen.shape(rs, order, 1, 5 if order < 5 else 3)
